@@ -29,6 +29,7 @@ func runC19(c *Ctx) {
 	c19Recheck(c, "C19")
 	c19TypeKey(c)
 	c19SamplesPrivate(c)
+	c19SamplesExact(c)
 }
 
 // naturalLoops returns header -> set of blocks of the loop.
